@@ -15,42 +15,58 @@ let () =
     end else [] in
   let tbl = Hashtbl.create 1024 in
   List.iter (fun (r : Caseio.case) -> Hashtbl.replace tbl r.id r) impl;
+  (* one resample call: lw = the log-weights the set holds at that call, sfx = "" or "_s<k>" (history step) *)
+  let emit_plain lw u1 sfx =
+    let n = List.length lw in
+    let ((src, w), par) = c07_resample fops lw (ob u1) in
+    (* the input particle each MEMBER of an output particle was copied from *)
+    Caseio.out_mat_shape ("src" ^ sfx) n 1 (col_of_ints (List.map (fun p -> int_of_z p.p_state) src));
+    Caseio.out_mat_shape ("src_mean" ^ sfx) n 1 (col_of_ints (List.map (fun p -> int_of_z p.p_mean) src));
+    Caseio.out_mat_shape ("src_cov" ^ sfx) n 1 (col_of_ints (List.map (fun p -> int_of_z p.p_cov) src));
+    Caseio.out_mat_shape ("weights" ^ sfx) n 1 (col_of_lvec w);
+    Caseio.out_mat_shape ("parents" ^ sfx) n 1 (col_of_ints (List.map int_of_nat par));
+    Caseio.out_mat_shape ("csw" ^ sfx) n 1 (col_of_lvec (c07_csw fops lw));
+    Caseio.out_mat_shape ("comb" ^ sfx) n 1 (col_of_lvec (c07_comb fops (nat_of_int n) (ob u1))) in
+  let emit_prior ratio lw u1 sfx =
+    let n = List.length lw in
+    let (((cnt, src), w), par) = c07_prior fops (ob ratio) lw (ob u1) in
+    let ((np, srt), tlw) = c07_prior_parts fops (ob ratio) lw in
+    let np = int_of_nat np in
+    Caseio.out_int ("components" ^ sfx) (int_of_nat cnt);
+    Caseio.out_int ("num_prior" ^ sfx) np;
+    Caseio.out_mat_shape ("src" ^ sfx) (List.length src) 1 (col_of_ints (List.map int_of_z src));
+    Caseio.out_mat_shape ("weights" ^ sfx) (List.length w) 1 (col_of_lvec w);
+    Caseio.out_mat_shape ("parents" ^ sfx) (List.length par) 1 (col_of_ints (List.map int_of_z par));
+    Caseio.out_mat_shape ("sorted" ^ sfx) n 1 (col_of_ints (List.map int_of_nat srt));
+    Caseio.out_mat_shape ("kept_lw" ^ sfx) (n - np) 1 (col_of_lvec tlw);
+    Caseio.out_mat_shape ("csw" ^ sfx) (n - np) 1 (col_of_lvec (c07_csw fops tlw));
+    Caseio.out_mat_shape ("comb" ^ sfx) (n - np) 1 (col_of_lvec (c07_comb fops (nat_of_int (n - np)) (ob u1))) in
   List.iter
     (fun (c : Caseio.case) ->
       match Hashtbl.find_opt tbl c.id with
       | None -> ()   (* no implementation record (crash): nothing to mirror *)
       | Some io ->
-        let u1 = Caseio.get_num io "u1" in
-        let lw = lvec_of_col (Caseio.get_mat c "lw") in
         Caseio.out_begin c.id;
-        Caseio.out_num "neff" (fl (c07_neff fops lw));
-        Caseio.out_num "lse" (fl (c07_lse fops lw));
-        if c.kind = "plain" then begin
-          let n = List.length lw in
-          let ((src, w), par) = c07_resample fops lw (ob u1) in
-          (* the input particle each MEMBER of an output particle was copied from *)
-          Caseio.out_mat_shape "src" n 1 (col_of_ints (List.map (fun p -> int_of_z p.p_state) src));
-          Caseio.out_mat_shape "src_mean" n 1 (col_of_ints (List.map (fun p -> int_of_z p.p_mean) src));
-          Caseio.out_mat_shape "src_cov" n 1 (col_of_ints (List.map (fun p -> int_of_z p.p_cov) src));
-          Caseio.out_mat_shape "weights" n 1 (col_of_lvec w);
-          Caseio.out_mat_shape "parents" n 1 (col_of_ints (List.map int_of_nat par));
-          Caseio.out_mat_shape "csw" n 1 (col_of_lvec (c07_csw fops lw));
-          Caseio.out_mat_shape "comb" n 1 (col_of_lvec (c07_comb fops (nat_of_int n) (ob u1)))
+        if c.kind = "hist" then begin
+          (* a history on one object: the model has no state besides the generator (mirrored offsets), so every step is
+             the stateless model applied to the weights the set holds at that step *)
+          let prior = Caseio.meta c "variant" = "prior" in
+          List.iteri (fun k op ->
+              let sfx = "_s" ^ string_of_int k in
+              let lw = lvec_of_col (Caseio.get_mat c ("lw" ^ sfx)) in
+              if op.[0] = 'n' then Caseio.out_num ("neff" ^ sfx) (fl (c07_neff fops lw))
+              else if Caseio.has io ("u1" ^ sfx) then begin
+                let u1 = Caseio.get_num io ("u1" ^ sfx) in
+                if prior then emit_prior (Caseio.get_mat c "ratio").(0).(0) lw u1 sfx else emit_plain lw u1 sfx
+              end)
+            (Caseio.get_word c "ops")
         end else begin
-          let n = List.length lw in
-          let ratio = (Caseio.get_mat c "ratio").(0).(0) in
-          let (((cnt, src), w), par) = c07_prior fops (ob ratio) lw (ob u1) in
-          let ((np, srt), tlw) = c07_prior_parts fops (ob ratio) lw in
-          let np = int_of_nat np in
-          Caseio.out_int "components" (int_of_nat cnt);
-          Caseio.out_int "num_prior" np;
-          Caseio.out_mat_shape "src" (List.length src) 1 (col_of_ints (List.map int_of_z src));
-          Caseio.out_mat_shape "weights" (List.length w) 1 (col_of_lvec w);
-          Caseio.out_mat_shape "parents" (List.length par) 1 (col_of_ints (List.map int_of_z par));
-          Caseio.out_mat_shape "sorted" n 1 (col_of_ints (List.map int_of_nat srt));
-          Caseio.out_mat_shape "kept_lw" (n - np) 1 (col_of_lvec tlw);
-          Caseio.out_mat_shape "csw" (n - np) 1 (col_of_lvec (c07_csw fops tlw));
-          Caseio.out_mat_shape "comb" (n - np) 1 (col_of_lvec (c07_comb fops (nat_of_int (n - np)) (ob u1)))
+          let u1 = Caseio.get_num io "u1" in
+          let lw = lvec_of_col (Caseio.get_mat c "lw") in
+          Caseio.out_num "neff" (fl (c07_neff fops lw));
+          Caseio.out_num "lse" (fl (c07_lse fops lw));
+          if c.kind = "plain" then emit_plain lw u1 ""
+          else emit_prior (Caseio.get_mat c "ratio").(0).(0) lw u1 ""
         end;
         Caseio.out_end ())
     cases
